@@ -17,6 +17,7 @@ func relayProfileC02(tier string) RelayProfile {
 		Republish:      0.4,
 		HeaderChange:   0.25,
 		TsWeird:        0.1,
+		NalKinds:       0.15,
 		BigUnits:       0.02,
 		ZeroLen:        0.01,
 		ShapeAudioOnly: 0.25,
